@@ -17,13 +17,13 @@ def run(p):
         e1, n1 = rng.uniform(-m, m), rng.uniform(-m, m)
         mode = rng.random()
         if mode < 0.25:
-            # a line almost along a grid axis: one component a tiny fraction (1e-12 .. 1e-2) of the length, or of
+            # a line almost along a grid axis: one component a tiny fraction (1e-17 .. 1e-2, below one ulp of the bearing too) of the length, or of
             # sub-micron size; first point at the origin or at small round coordinates so that the coordinate
             # differences are exact
             e1, n1 = rng.choice([(0.0, 0.0), (0.0, 0.0), (100.0, 200.0), (-5.0, 12.0)])
             m = max(abs(e1), abs(n1))
             L = 10 ** rng.uniform(-2, 5) * rng.choice([-1, 1])
-            t = (abs(L) * 10 ** rng.uniform(-12, -2) if rng.random() < 0.6 else 10 ** rng.uniform(-9, -5)) * rng.choice([-1, 1])
+            t = (abs(L) * 10 ** rng.uniform(-17, -2) if rng.random() < 0.6 else 10 ** rng.uniform(-13, -5)) * rng.choice([-1, 1])
             (de, dn) = (t, L) if rng.random() < 0.5 else (L, t)
             e2, n2 = e1 + de, n1 + dn
         elif mode < 0.35:
